@@ -40,7 +40,10 @@ RULE = ('(a) correspondence: generated well-nested histories (with-blocks, excep
         'field incl. the whole range through put_slice(None)/put(None,i,j)/del view[i:j]/get_slice(cut): whatever raises is '
         'judged, valid request or not; PRIMITIVE values (0/1/2/-1/True/False/None/strings/floats) put to every primitive field '
         '(AnnAssign.simple, is_async, ImportFrom.level, Constant.value/kind, conversion, identifiers, names lists) through put() '
-        'and attribute / item assignment; plus systematic '
+        'and attribute / item assignment; trivia-only edits (put_line_comment / put_docstr with acceptable and impossible '
+        'text: line terminators incl. lone CR, NUL, non-strings; a successful put_line_comment is judged by CPython: new source '
+        'must parse to the same tree and equal the live one); cuts (get_slice cut=True) with valid values of the options '
+        'that steer the returned form (args_as ...); plus systematic '
         'families on the small trees (delete every node and field; every position x every rule-breaking code of every slice '
         'field; every option x junk values (out-of-range ints, wrong types) x every entry-point family - insert/append/prepend/'
         'extend/put/put_slice/delete/get_slice(cut)/replace/remove/cut - on every statement list). Every call that RAISES is judged: src, ast.dump(with positions) of the whole root and the AST<->FST node '
@@ -56,6 +59,9 @@ TRUSTED = [
     'not modelled: the f-string debug-text bookkeeping of enter()/success() (fields fst/field/data; success() may splice '
     'source AFTER releasing the registry entry); the put handlers themselves (hundreds of raise sites) - whether each '
     'validates before it mutates is evaluated per failing call by the sweep on the real code, not proved',
+    'put_line_comment is the one API where a SUCCESSFUL call is judged (signature C12|not-refused|...): by contract it '
+    'changes one comment only, so a result whose source no longer parses to the live tree means an impossible request was '
+    'spliced in instead of being refused',
     'sweep oracle: CPython ast.dump / ast.parse and plain attribute traversal (a.f / f.a / f.parent); pfst is used to build '
     'the tree and the fresh twin (FST(src, mode): for non-Module roots pfst\'s parser in that mode IS the from-scratch '
     'reference), to address nodes (walk order), to enumerate slice fields (_PUT_SLICE_HANDLERS keys) and to make the call '
